@@ -139,6 +139,25 @@ PROPS = {
         "jobs": {"quick": 8, "thorough": 8},
         "harness_timeout": {"quick": 1500, "thorough": 7200},
     },
+    "C18": {
+        "verus_units": ["keystore"],
+        "trusted": COMMON_TRUSTED,
+        "assumptions": [
+            "ideal cryptography / file system (assumed contracts of the manager's own helpers): the store file opens under exactly one password -- load_and_decrypt (ChaCha20-Poly1305 under an Argon2id-derived key) succeeds only under it and then returns the seed table the file holds; encrypt_and_store replaces the file as a whole by one that opens with the given password and holds the given table, or fails and leaves it (write to .tmp + rename)",
+            "cache_key (keyed BLAKE3 of the password under a per-process random key, hex, ':' seed id) is injective in (password, seed id); its text is pinned by hash",
+            "sequential use of one manager: no other task touches the file or the cache during a call (await erasure); std locks are not poisoned; the file is changed only through this manager",
+            "a failure of SecureMemory::from_slice (memory locking) after store_master_seed rewrote the file would leave the previously cached seed in place: value coherence of the cache after a FAILED store is proved only when the file was left unchanged",
+        ],
+        "clauses_not_decided": [
+            "'if any byte of the store file is altered the operation fails rather than returning different key material': authenticity of ChaCha20-Poly1305 / integrity of the postcard framing -- cryptographic, assumed in the helper contracts, not verified",
+            "'an interrupted update leaves either the old or the new file, never a mixture': crash atomicity of write-to-.tmp + rename -- no file-system or crash model in the verifier; assumed in encrypt_and_store's contract",
+            "'returned unchanged ... after reopening the file': a reopened manager starts with an empty cache, so this is the cache-miss path (proved) over the assumed round trip encrypt_and_store / load_and_decrypt",
+            "that the current password DOES open every stored seed (success direction): depends on IO / allocation / Argon2 succeeding; exercised by the native search only",
+            "key derivation (derive_key, Argon2 parameters), password strength validation, background tasks, SecureMemory zeroisation",
+        ],
+        "explanation": "Verus proves, on the await-erased text of EncryptedKeyStorageManager::{initialize, store_master_seed, retrieve_master_seed, change_password, clear_cache}, with the in-memory seed cache and the store file as explicit state: a seed is returned only to a caller presenting the password that currently opens the store, and it is exactly the seed the store holds under that id; the cache invariant (every cached entry is filed under the key of the CURRENT password) is established by every operation -- in particular nothing cached under the previous password survives a password change or a re-initialisation; a seed is stored, and the password changed, only for a caller presenting the current password; storing never changes the password and leaves every other seed as it was; a refused change leaves the store as it was.",
+        "jobs": {"quick": 2, "thorough": 2},
+    },
     "C17": {
         "verus_units": [],
         "trusted": COMMON_TRUSTED + [
